@@ -53,6 +53,7 @@ func init() {
 		return fromTerm(mkIte(toBoolTerm(a[0]), toTerm(a[1]), toTerm(a[2])), types.Uint8)
 	})
 	h("vFreeParseFloat", func(fr *frame, a []value) value { I.freeParseFloat = a[0].(bool); return nil })
+	h("vLazyFormat", func(fr *frame, a []value) value { I.lazyFormat = a[0].(bool); return nil })
 	h("vAllowSymMul", func(fr *frame, a []value) value { I.allowSymMul = a[0].(bool); return nil })
 
 	l := func(name string, f intrinsic) { intrinsics[name] = f }
@@ -106,10 +107,20 @@ func init() {
 	l("encoding/json.Marshal", inJSONMarshal)
 }
 
+const lazyMarker = "\x00\x01LAZY"
+
+// checkLazy refuses to look inside a string that contains an opaque formatted number.
+func checkLazy(s string) string {
+	if I != nil && I.lazyUsed && strings.Contains(s, lazyMarker) {
+		panic(outOfReach{"text formatted from an unconstrained symbolic number is inspected at " + posOf(I.curFrame)})
+	}
+	return s
+}
+
 func concreteString(v value) string {
 	switch s := v.(type) {
 	case string:
-		return s
+		return checkLazy(s)
 	case sstr:
 		panic(outOfReach{"symbolic string where a concrete one is required"})
 	}
@@ -406,9 +417,9 @@ func caseMap(v value, upper bool) value {
 	s, ok := v.(sstr)
 	if !ok {
 		if upper {
-			return strings.ToUpper(v.(string))
+			return strings.ToUpper(checkLazy(v.(string)))
 		}
-		return strings.ToLower(v.(string))
+		return strings.ToLower(checkLazy(v.(string)))
 	}
 	I.x.noteSym()
 	r := make([]value, len(s))
@@ -444,7 +455,7 @@ func isSpaceTerm(b *Term) *Term {
 func inTrimSpace(fr *frame, a []value) value {
 	s, ok := a[0].(sstr)
 	if !ok {
-		return strings.TrimSpace(a[0].(string))
+		return strings.TrimSpace(checkLazy(a[0].(string)))
 	}
 	bs := []value(s)
 	isSp := func(v value) bool {
@@ -488,6 +499,7 @@ func inStringsSplit(fr *frame, a []value) value {
 	ss, sok := s.(string)
 	sp, pok := sep.(string)
 	if sok && pok {
+		checkLazy(ss)
 		parts := strings.Split(ss, sp)
 		r := make([]value, len(parts))
 		for i, p := range parts {
@@ -617,7 +629,7 @@ func inParseInt(fr *frame, a []value) value {
 	base, bits := a[1].(int), a[2].(int)
 	s, ok := a[0].(sstr)
 	if !ok {
-		v, err := strconv.ParseInt(a[0].(string), base, bits)
+		v, err := strconv.ParseInt(checkLazy(a[0].(string)), base, bits)
 		if err != nil {
 			return tuple{v, mkError(err.Error())}
 		}
@@ -664,7 +676,7 @@ func inParseInt(fr *frame, a []value) value {
 func inParseFloat(fr *frame, a []value) value {
 	s, ok := a[0].(sstr)
 	if !ok {
-		v, err := strconv.ParseFloat(a[0].(string), a[1].(int))
+		v, err := strconv.ParseFloat(checkLazy(a[0].(string)), a[1].(int))
 		if err != nil {
 			return tuple{v, mkError(err.Error())}
 		}
@@ -777,7 +789,11 @@ func stringerOf(x iface) (value, bool) {
 
 func sprintf(format string, args []value) value {
 	var out []value
-	emit := func(s string) { out = append(out, strBytes(s)...) }
+	emit := func(s string) {
+		for i := 0; i < len(s); i++ {
+			out = append(out, s[i])
+		}
+	}
 	ai := 0
 	for i := 0; i < len(format); i++ {
 		c := format[i]
@@ -845,6 +861,13 @@ func sprintf(format string, args []value) value {
 			k := types.Int
 			if b.t != nil {
 				k = basicKind(b.t)
+			}
+			if x.sort != SFP64 && (x.vs == nil || len(x.vs) > 16) && I.lazyFormat {
+				// unconstrained symbolic number: the text is opaque; inspecting it later is out of reach
+				I.lazyUsed = true
+				I.stubs["fmt.Sprintf of an unconstrained symbolic number: opaque text (inspection = out of reach)"]++
+				emit(fmt.Sprintf("%s<%s:t%d>", lazyMarker, spec, x.id))
+				continue
 			}
 			if x.sort == SFP64 && (x.vs == nil) {
 				// a float chosen from a pool: enumerate the pool entries
